@@ -24,7 +24,10 @@ SPEC = dict(
     bounded=[dict(name='C13-bounded', script='bounded/C13.py')],
     replay_finder='bounded/C13.py',
     explanation='safety half of the variable builder proved (nothing else changes, budget, termination); exact enumeration, terminal rules, append / overwrite values and idempotence bounded',
-    proved_clauses=['static builder, terminal rules (N-terminal / C-terminal rule maps, any mode): the terminus is modified iff a rule with a non-empty '
+    proved_clauses=['apply_variable_mods with residue rules only (annotation return type): the forms of the builder on a COPY of the peptide -- each keeps the residues '
+                    'and every other annotation, has at most max_mods additional modified residues, and in skip mode keeps every existing modification '
+                    '(apply_variable_mods~residues, over the contracts of the enumerator)',
+                    'static builder, terminal rules (N-terminal / C-terminal rule maps, any mode): the terminus is modified iff a rule with a non-empty '
                     'modification list matches the first / last residue; skip mode keeps an existing terminal modification; everything but that '
                     'terminus is untouched (apply_static_mods~nterm / ~cterm, 125 obligations each)',
                     'static builder (residue rules): modifications on every matched residue and on no other; skip mode keeps existing modifications; everything else untouched',
